@@ -147,6 +147,40 @@ C03_Loads(c) ==
     {<<"C03.load", n.tbl, ToString(n.lab)>> : n \in {n \in NRows(c.net) : n.tbl \in LoadTables /\ IsNum(n.m) /\ ~Near(n.m, n.want, 2)}}
 C03(c) == IF Returned(c) THEN C03_Fixed(c) \cup C03_Branches(c) \cup C03_Loads(c) ELSE {}
 
+(* ------------------------- C06 / C09 (relational, arbitrary nets) ------------------------- *)
+(* c.net and c.rnet describe the same physical system: c.rel.jmap / c.rel.emap map junction and  *)
+(* branch labels of net to those of rnet (a relabelling with shuffled rows), c.rel.rev lists the *)
+(* branches whose from/to were swapped.  Corresponding elements must report the same results,   *)
+(* a swapped branch with from/to cells exchanged and the flow sign flipped.                     *)
+RelTol == 300
+RelTolV == 50000        \* velocities (1e-9 m/s ticks): round-off of a zero flow is amplified by 1/(rho A)
+EqV(x, y) == (IsNum(x) /\ IsNum(y) /\ Near(x, y, RelTolV)) \/ (~IsNum(x) /\ ~IsNum(y))
+EqN(x, y) == (IsNum(x) /\ IsNum(y) /\ Near(x, y, RelTol)) \/ (~IsNum(x) /\ ~IsNum(y))
+PairsFn(S) == [k \in {q[1] : q \in S} |-> (CHOOSE q \in S : q[1] = k)[2]]
+(* a pump at rest sits on the discontinuity of its characteristic (shut-off head for +0, no lift for -0): *)
+(* which side round-off falls on is not a property of the network description                            *)
+PumpAtRest(net) == \E e \in ERows(net) : e.tbl = "pump" /\ IsNum(e.mf) /\ AbsLeq(e.mf, 1000)
+RelClauses(c, prop) ==
+    IF Returned(c) /\ c.routcome = "returned" /\ (PumpAtRest(c.net) \/ PumpAtRest(c.rnet)) THEN {} ELSE
+    IF ~Returned(c) \/ c.routcome # "returned" THEN
+        (* a run that does not converge is not judged (the properties speak about converged runs); any other difference is *)
+        (IF Returned(c) # (c.routcome = "returned") /\ ~RaisedNC(c) /\ c.routcome # "PipeflowNotConverged"
+         THEN {<<prop \o ".outcome_differs", c.routcome, "">>} ELSE {})
+    ELSE
+    LET jm == PairsFn({<<q[1], q[2]>> : q \in Rng(c.rel.jmap)})
+        em == PairsFn({<<<<q[1], q[2]>>, q[3]>> : q \in Rng(c.rel.emap)})
+        rev == {<<q[1], q[2]>> : q \in Rng(c.rel.rev)}
+        RJ(l) == CHOOSE j \in JRows(c.rnet) : j.lab = jm[l]
+        RE(e) == CHOOSE f \in ERows(c.rnet) : f.tbl = e.tbl /\ f.lab = em[<<e.tbl, e.lab>>]
+    IN {<<prop \o ".junction", "", ToString(j.lab)>> : j \in {j \in JRows(c.net) : ~EqN(j.p, RJ(j.lab).p) \/ ~EqN(j.t, RJ(j.lab).t)}}
+       \cup {<<prop \o ".branch", e.tbl, ToString(e.lab)>> : e \in {e \in ERows(c.net) :
+              LET f == RE(e)  sw == <<e.tbl, e.lab>> \in rev IN
+              IF ~sw THEN ~(EqN(e.mf, f.mf) /\ EqN(e.mt, f.mt) /\ EqN(e.pf, f.pf) /\ EqN(e.pt, f.pt) /\ EqV(e.v, f.v)
+                            /\ EqN(e.vd, f.vd) /\ EqN(e.tf, f.tf) /\ EqN(e.tt, f.tt) /\ e.hydall = f.hydall)
+              ELSE ~(EqN(e.mf, f.mt) /\ EqN(e.mt, f.mf) /\ EqN(e.pf, f.pt) /\ EqN(e.pt, f.pf)
+                     /\ EqV(e.v, IF IsNum(f.v) THEN Neg(f.v) ELSE f.v) /\ EqN(e.vd, IF IsNum(f.vd) THEN Neg(f.vd) ELSE f.vd)
+                     /\ EqN(e.tf, f.tt) /\ EqN(e.tt, f.tf) /\ e.hydall = f.hydall)}}
+
 (* ------------------------------ C05 (result side) -------------------- *)
 (* a failed run leaves no number in any result table *)
 C05_FailedEmpty(c) ==
@@ -159,6 +193,9 @@ Failures(c) ==
     (IF "C04" \in Rng(c.check) THEN C04(c) ELSE {})
     \cup (IF "C01" \in Rng(c.check) THEN C01(c) ELSE {})
     \cup (IF "C03" \in Rng(c.check) THEN C03(c) ELSE {})
+    \cup (IF "C06R" \in Rng(c.check) THEN RelClauses(c, "C06") ELSE {})
+    \cup (IF "C09R" \in Rng(c.check) THEN RelClauses(c, "C09") ELSE {})
+    \cup (IF "C09S" \in Rng(c.check) THEN RelClauses(c, "C09.start_temperature") ELSE {})
     \cup (IF "C05" \in Rng(c.check) THEN C05_FailedEmpty(c) ELSE {})
 
 (* ------------------------------ machine ------------------------------ *)
